@@ -1283,6 +1283,71 @@ class Analyzer(Analysis):
                     if self.final:
                         self.events.append(ev)
                     return
+            elif re.search(r"^core::slice::<impl \[T\]>::get$", name) and len(vals) == 2 and vals[1] is not None and \
+                    vals[1][0] in ("range", "rangeto", "rangefrom", "rangefull"):
+                # checked slicing: Some(&s[range]) exactly when the range lies within the slice
+                ln = self.slice_len_of_val(st, vals[0], self.op_ty(args[0]))
+                idx = vals[1]
+                self._parent_sid = vals[0][1] if (vals[0] is not None and vals[0][0] in ("slice", "ref")) else None
+                sres = self.slice_result(st, dest_key, ln, idx, bi)
+                if sres is not None and ln is not None:
+                    k0 = idx[0]
+                    facts = []
+                    if k0 == "range":
+                        facts = [idx[1] - idx[2], idx[2] - ln]
+                    elif k0 == "rangeto":
+                        facts = [idx[1] - ln]
+                    elif k0 == "rangefrom":
+                        facts = [idx[1] - ln]
+                    cs = "opt%d" % bi
+                    self.pending[cs] = {"variant_facts": {1: facts}}
+                    self.write(st, dest_key, ("callres", cs))
+                    st.store[dest_key + "@Some.0"] = sres
+                    if self.final:
+                        r0, off0 = self.root_of(sres[1])
+                        self.slices.append({"bi": bi, "sid": sres[1], "root": r0, "off": off0, "kind": idx[0],
+                                            "len": st.store["len:" + sres[1]][1], "sp": sp})
+                        self.events.append(ev)
+                    return
+            elif re.search(r"^core::slice::<impl \[T\]>::get$", name) and len(vals) == 2 and vals[1] is not None and vals[1][0] == "lin" \
+                    and vals[0] is not None and vals[0][0] in ("slice", "ref") and dest_ty["k"] == "adt":
+                # checked element access: Some(&s[i]) exactly when i < len
+                ln = self.slice_len_of_val(st, vals[0], self.op_ty(args[0]))
+                ix = vals[1][1]
+                if ln is not None:
+                    base = vals[0][1]
+                    ekey = "*%s[%r]" % (base.lstrip("*"), ix) if not base.startswith("(") else "%s[%r]" % (base, ix)
+                    inner = None
+                    ot = self.op_ty(args[0])
+                    for _ in range(3):
+                        if ot is not None and ot["k"] in ("ref", "ptr"):
+                            ot = self.types[ot["t"]]
+                    if ot is not None and ot["k"] in ("slice", "array"):
+                        inner = self.types[ot["t"]]
+                    if inner is not None and inner["k"] in ("int", "bool", "char") and ekey not in st.store:
+                        self._last_index = ix
+                        st.store[ekey] = self.default_val(ekey, inner, "%s@%d" % (ekey, bi))
+                    cs = "opt%d" % bi
+                    self.pending[cs] = {"variant_facts": {1: [ix + 1 - ln]}}
+                    self.write(st, dest_key, ("callres", cs))
+                    st.store[dest_key + "@Some.0"] = ("ref", ekey, False)
+                    if self.final:
+                        self.events.append(ev)
+                    return
+            elif name in ("std::option::Option::<T>::ok_or", "std::option::Option::<T>::ok_or_else") and vals and \
+                    vals[0] is not None and vals[0][0] == "callres" and args[0].get("o") in ("copy", "move"):
+                # Some(x) -> Ok(x): the facts and the payload of the Some side become those of the Ok side
+                src = self.pending.get(vals[0][1], {})
+                cs = "okor%d" % bi
+                self.pending[cs] = {"variant_facts": {0: list(src.get("variant_facts", {}).get(1, []))},
+                                    "variant_stores": {0: list(src.get("variant_stores", {}).get(1, []))}}
+                ak = self.key_of(st, args[0]["pl"], bi, -1)
+                self.havoc_args(st, args[1:], vals[1:], bi)
+                self.write(st, dest_key, ("callres", cs))
+                self.copy_tree(st, ak + "@Some", dest_key + "@Ok")
+                if self.final:
+                    self.events.append(ev)
+                return
             elif re.search(r"::<impl (str|\[T\])>::(splitn|rsplitn)$", name) and len(vals) >= 2:
                 result = ("splitn", self.as_lin(vals[1]))
                 handled = True
